@@ -514,6 +514,42 @@ def r_components_roundtrip(rule, root=None):
         rule.lost("components() / from_components() pairs in fidget-gui")
 
 
+CANVAS_STATE = {
+    "Canvas2": {"view": "the view being manipulated", "image_size": "adopted at the top of every interaction", "drag_start": "the handle of the drag in progress (refreshed by a zoom)"},
+    "Canvas3": {"view": "the view being manipulated", "image_size": "adopted at the top of every interaction", "drag_start": "the handle of the drag in progress (refreshed by a zoom)"},
+}
+
+
+def r_canvas_state(rule, root=None):
+    """what a canvas remembers between events is exactly the vetted fields: a further cache (the last cursor position,
+    a "nothing moved" shortcut) has to be invalidated by every other way the view can change - zoom, resize, a new
+    drag - and is stale in the sequences where one of them was forgotten"""
+    d = A.load(GUI, root)
+    for it in A.find(d, "StructDef"):
+        if it.get("name") not in CANVAS_STATE or not isinstance(it.get("fields"), list):
+            continue
+        have = [f.get("name") for f in it["fields"]]
+        extra = [f for f in have if f not in CANVAS_STATE[it["name"]]]
+        if extra:
+            rule.bad("%s|state|%s" % (it["name"], extra[0]), "%s carries the new state `%s` between events; every path that changes the view (zoom, resize, begin / end of a drag) must keep it valid, and it is not in the vetted list %s" % (it["name"], extra[0], sorted(CANVAS_STATE[it["name"]])), A.where(GUI, it))
+        else:
+            rule.ok("%s holds only %s" % (it["name"], ", ".join(have)), file=GUI, line=it.get("ln", 1))
+    REG = "fidget-core/src/render/region.rs"
+    dr = A.load(REG, root)
+    n = 0
+    for f in dr["_fns"]:
+        if f["name"] != "transform_point" or f["_test"] or f.get("body") is None:
+            continue
+        n += 1
+        t = str(A.ftxt(f["body"])).strip("{}")
+        if re.fullmatch(r"self\.screen_to_world\(\)\.transform_point\(&\w+\.cast(?:::<f32>)?\(\)\)", t):
+            rule.ok("%s::transform_point is screen_to_world() applied to the point" % ((f.get("_owner") or {}).get("self_ty")), file=REG, line=f["ln"])
+        else:
+            rule.bad("region|transform_point|%s" % ((f.get("_owner") or {}).get("self_ty") or "?"), "transform_point must apply `self.screen_to_world()`: the renderers sample through that matrix, and a second formula for the same map (integer halving of an odd size, say) puts the cursor half a pixel from what is drawn under it", A.where(REG, f))
+    if n == 0:
+        rule.lost("transform_point in fidget-core/src/render/region.rs")
+
+
 def run(ctx):
     r = ctx.rule("R1", "world_to_model = translate x rotate x scale of the view's own components", 9)
     ctx.guarded(r, r1_matrix)
@@ -531,3 +567,5 @@ def run(ctx):
     ctx.guarded(r, r7_stale_handle)
     r = ctx.rule("R8", "components() lists the fields in the order from_components() takes them (the two are inverse)", 4)
     ctx.guarded(r, r_components_roundtrip)
+    r = ctx.rule("R9", "a canvas remembers only its vetted state; cursor positions go from screen to world through screen_to_world() itself", 4)
+    ctx.guarded(r, r_canvas_state)
